@@ -15,7 +15,11 @@ def run(tier, wd):
     q = tier == "quick"
     alphabet = ["c1", "k1", "c2", "d1", "a1", "b1", "e2", "get", "x", "-f", "--", "-g"] if q else \
                ["c1", "k1", "c2", "d1", "a1", "aa", "b1", "bb", "e1", "e2", "ee", "x", "-f", "--force", "-n=7", "--", "-g", "-"]
-    trs, rows = tc.run_tree(rep, wd, binpath, alphabet, 4 if q else 5, ["continue"], "c04")
+    trs, rows = tc.run_tree(rep, wd, binpath, alphabet, 4, ["continue"], "c04")
+    if not q:
+        # longer vectors over a smaller alphabet
+        _, rows5 = tc.run_tree(rep, wd, binpath, ["c1", "k1", "d1", "a1", "b1", "e2", "get", "x", "-f", "--"], 5, ["continue"], "c04-len5")
+        rows = rows + rows5
     nontriv = 0
     if not q:
         # random command trees (depth <= 3, fan-out <= 3, aliases) with a shorter bound
@@ -59,10 +63,10 @@ def run(tier, wd):
     rep.cov["distinct_nontrivial"] = nontriv
     rep.cov["exhaustive"] = True
     rep.cov["rule"] = ("5 command trees (depth <= 4 levels, aliases, a level without spec string, a level with a spec-level --, a command without Action) x every "
-                       "argument vector over %d tokens (sub command names and aliases, positionals, declared/undeclared options, --) up to length %d: CmdTree.tla "
+                       "argument vector over %d tokens (sub command names and aliases, positionals, declared/undeclared options, --) up to length %d (thorough: also 10 tokens up to length 5): CmdTree.tla "
                        "walks Cmd.parse level by level (split at the first direct sub command name, validate the level's own tokens with RefSemantics, descend) "
                        "and says which command runs with which per-level derivations or which level rejects; non-trivial = a run through >= 2 levels or a "
-                       "rejection below the root" % (len(alphabet), 4 if q else 5))
+                       "rejection below the root" % (len(alphabet), 4))
     rep.assumptions += ["every command of the claimed cases has an Action; the error policy is set before the sub commands are declared",
                         "help tokens are C14's business and do not occur here"]
     return rep.finish()
